@@ -231,6 +231,44 @@ pub fn guarded<T>(f: impl FnOnce() -> T) -> Result<T, String> {
     }
 }
 
+// ---------------------------------------------------------------------------
+// per-case watchdog: a case that runs longer than the budget ends the run as INCONCLUSIVE (exit 2)
+// with the case written out, instead of waiting for the whole-run budget of the parent
+
+type Slot = Mutex<Option<(Instant, usize, fn(usize) -> Value, &'static str)>>;
+const NSLOTS: usize = 128;
+static SLOTS: [Slot; NSLOTS] = [const { Mutex::new(None) }; NSLOTS];
+static NEXT_SLOT: std::sync::atomic::AtomicUsize = std::sync::atomic::AtomicUsize::new(0);
+thread_local! {
+    static MY_SLOT: usize = NEXT_SLOT.fetch_add(1, Ordering::Relaxed) % NSLOTS;
+}
+
+fn encode_erased<C: Case>(p: usize) -> Value {
+    // only called by the watchdog while the owning thread is still inside the case (slot locked)
+    unsafe { (&*(p as *const C)).encode() }
+}
+
+pub fn start_case_watchdog(prop: &'static str, budget_s: u64) {
+    std::thread::spawn(move || loop {
+        std::thread::sleep(std::time::Duration::from_millis(500));
+        for slot in SLOTS.iter() {
+            let guard = slot.lock().unwrap();
+            if let Some((t0, ptr, enc, sub)) = *guard {
+                if t0.elapsed().as_secs() >= budget_s {
+                    let case = enc(ptr);
+                    let dir = Path::new(VERIF_ROOT).join("replays");
+                    let _ = std::fs::create_dir_all(&dir);
+                    let path = dir.join(format!("{}-watchdog-{}.json", prop, sub));
+                    let doc = json!({"property": prop, "subcheck": sub, "case": case, "observed": format!("case did not finish within {} s", budget_s)});
+                    let _ = std::fs::write(&path, serde_json::to_string_pretty(&doc).unwrap());
+                    println!("INCONCLUSIVE property={} watchdog: a case of sub-check {} did not finish within {} s (slowness is never reported as a violation); case={}", prop, sub, budget_s, path.display());
+                    std::process::exit(2);
+                }
+            }
+        }
+    });
+}
+
 /// Result of executing one case
 pub enum Exec {
     Pass,
@@ -239,7 +277,10 @@ pub enum Exec {
 }
 
 fn exec_case<C: Case>(sub: &Sub<C>, case: &C, obs: &mut Obs) -> Exec {
+    let slot = MY_SLOT.with(|s| *s);
+    *SLOTS[slot].lock().unwrap() = Some((Instant::now(), case as *const C as usize, encode_erased::<C>, sub.name));
     let r = guarded(|| (sub.check)(case, obs));
+    *SLOTS[slot].lock().unwrap() = None;
     match r {
         Ok(Ok(())) => {
             if obs.discard.is_some() {
@@ -661,7 +702,7 @@ impl Ctx {
         }
         let t = Instant::now();
         let si = self.stat_mut(sub.name, sub.rule);
-        let streams: u32 = if sub.journal { 1 } else { (n / 256).clamp(1, 16) };
+        let streams: u32 = if sub.journal { 1 } else { (n / 24).clamp(1, 16) };
         let per = (n + streams - 1) / streams;
         let base_seed = self.seed;
         let prop = self.prop;
